@@ -31,7 +31,7 @@ def closure_sel(trait_closure, wb, post, ctor, fut=False):
     open spec fn post_c(&self, enc: spec_fn(Blk) -> Blk) -> bool {
         self.f.%s(%s(enc), %s, %s)
     }
-''' % ('self.f.pre()' if post == 'post' else 'true', post, ctor,
+''' % ('self.f.pre()' if post == 'post' else 'self.f.kpre()', post, ctor,
        'seq![self.iv@]' if post == 'post' else 'KAbs { base: self.iv@, pos: 0 }',
        'seq![mut_ref_future(self.iv)@]' if post == 'post' else 'KAbs { base: mut_ref_future(self.iv)@, pos: 0 }'),
             fns={'call': FnC(props=('C07', 'C03', 'C14'), inherits=True, note='plumbing')}),
